@@ -48,7 +48,7 @@ Qed.
 (* default widths.  Parameter 0 is shared between the tuple member g.pos.pos_1 (configured T2.pos_1) and the operand of
    the arithmetic prior h.b; the code takes class float (child arithmetic prior wins) and the operand's name, finds no
    configuration and uses the default Relative 0.5 with the old limits: here that happens to be the (unconfigured)
-   operand place; see C12_config_own_refuted for a shared prior that gets the configuration of NO place of its own.
+   operand place; (before a8a9b5b a shared prior could get the configuration of NO place of its own: C12_config_own_legacy_refuted).
    Parameter 1 (g.c and h.a; last place h.a -> G2.a): Absolute 0.25 from its own modifier, limits -11..11.
    The tuple constant moves behind the prior, nothing else changes. *)
 Example wm_default :
